@@ -116,6 +116,17 @@ Theorem C02_handler_once : forall rf itype evs pre post o c mid r tag,
 Proof. exact handler_once. Qed.
 Print Assumptions C02_handler_once.
 
+(* The client protocol state machine - a second Handshake packet at any moment, its ack,
+   heartbeats, also while requests are outstanding - are events of the histories all theorems
+   above quantify over, and they change nothing: any history behaves exactly like the same
+   history without them.  (So a response produced while the session is back in the handshake
+   state is still written: exactly one response holds across re-handshakes.) *)
+Theorem C02_protocol_transparent : forall rf itype evs s,
+  run_from rf itype s evs =
+  run_from rf itype s (filter (fun e => negb (is_proto e)) evs).
+Proof. exact proto_transparent. Qed.
+Print Assumptions C02_protocol_transparent.
+
 (* Frame: nothing is ever written to a connection after it was closed, whatever happens. *)
 Theorem C02_closed_silent : forall rf itype more s c,
   is_closed (conns s) c = true ->
